@@ -355,6 +355,10 @@ def cfg_cmd(rng, s, workdir, fam_wraps, uniq, keep_data=False):
             if w == [0]:
                 w = [1]
                 s["data"] = struct.pack("<L", 1)
+            if len(w) == 1 and rng.random() < 0.4:
+                # one small number is still one 32-bit word, in whatever notation
+                w = [core.pick(rng, [1, 5, 0xFF, 0x100, 0x8000, 0xFFFF, 0x10000])]
+                s["data"] = struct.pack("<L", w[0])
             if len(w) == 1 and rng.random() < 0.5:
                 d["values"] = core.pick(rng, [w[0], hex(w[0]), str(w[0])])
             else:
@@ -371,6 +375,8 @@ def cfg_cmd(rng, s, workdir, fam_wraps, uniq, keep_data=False):
         return {n: {"address": num(rng, s["address"])}}, s
     if n == "programFuses":
         w = words_of(s["data"][:32]) or [0]
+        if len(w) == 1 and rng.random() < 0.4:
+            w = [core.pick(rng, [1, 5, 0xFF, 0x100, 0x8000, 0xFFFF, 0x10000])]
         s["data"] = struct.pack(f"<{len(w)}L", *w)
         if len(w) == 1 and rng.random() < 0.5:
             v = core.pick(rng, [w[0], hex(w[0])])
